@@ -91,10 +91,7 @@ def decParse (s : String) : Option (List (String × Option String)) :=
       if c == "!" then pure (r, none) else do let c ← unhexF c; pure (r, some c)
     | _ => none) (s.splitOn ",")
 
-def parseOf (m : List (String × Option String)) : ParseFn := fun s =>
-  match m.find? (·.1 == s) with
-  | some (_, v) => v
-  | none => some s
+def parseOf (m : List (String × Option String)) : ParseFn := parseOfList m
 
 def decCtor (s : String) : Option Ctor :=
   if s == "new" then some .new else if s == "late" then some .late else if s == "zero" then some .zero
